@@ -34,7 +34,7 @@ def _fact_of_rv(body, rv, facts):
             return facts.get(key) if key is not None else None
         return None
     if k == 'aggr' and rv.get('kind') == 'adt' and rv.get('variant'):
-        return ('variant', rv['variant'])
+        return ('variant', rv['variant'], rv.get('adt'))
     return None
 
 
@@ -119,6 +119,14 @@ def step_block(body, b, facts, variants_of=None):
                     ff = f.get(src)
                     if ff and ff[0] == 'variant':
                         idx = {'None': 0, 'Some': 1, 'Ok': 0, 'Err': 1, 'Pending': 1, 'Ready': 0, 'Continue': 0, 'Break': 1}.get(ff[1])
+                        if idx is None and len(ff) > 2 and ff[2]:
+                            # an enum of the crate itself (`enum Outcome { Keep, Close, Stream(s) }` steering the control flow)
+                            for ap, a in getattr(body.crate, 'adts', {}).items():
+                                if ap == ff[2] or ap.endswith('::' + ff[2].split('::')[-1]) and ff[2].split('::')[-1] == ap.split('::')[-1]:
+                                    names = [v['name'] for v in a.get('variants', [])]
+                                    if ff[1] in names:
+                                        idx = names.index(ff[1])
+                                        break
                         if idx is not None:
                             succ = [arms.get(idx, t['otherwise'])]
     return f, succ
